@@ -100,6 +100,7 @@ type Explorer struct {
 	obs      map[string]int
 	start    time.Time
 	lastPath []int32
+	countPruned bool
 	// CollectProj: record Project() of every state reached (cross-check)
 	CollectProj bool
 	Proj        map[string]bool
@@ -271,6 +272,14 @@ func (e *Explorer) execute(n *node, stack []*node) []*node {
 				cur.key = key
 			} else {
 				e.res.Outcomes["PRUNED"]++
+				if inst.Counters != nil && inst.Goal == nil || (inst.Counters != nil && e.countPruned) {
+					if e.res.Counters == nil {
+						e.res.Counters = map[string]int{}
+					}
+					for k, v := range inst.Counters() {
+						e.res.Counters[k] += v
+					}
+				}
 				return stack
 			}
 		} else {
